@@ -1,9 +1,9 @@
 # C09 -- see DESIGN.md section 5
 PROP = {
     "props_v": "Props/C09.v",
-    "extra_v": ["ClientStoreRun.v"],
+    "extra_v": ["ClientStoreRun.v", "ServerRun.v"],
     "run_vo": "ClientStoreRun.vo",
-    "suites": [("test", "history"), ("test", "meter")],
+    "suites": [("test", "history"), ("test", "meter"), ("test", "lossylite")],
     "assumptions": [
         "glow.Sign is a function of (message, key): modelled as a Section variable sign : bytes -> bytes; the meter suite re-signs every captured report with the device key and requires the identical 80 bytes (RFC 6979 determinism is checked, not proved)",
         "the device identity (short id, key pair) is fixed over the modelled life; a GCA migration installs a new short id and starts a new life",
